@@ -375,16 +375,16 @@ Qed.
 Definition codeFirstNr (c : tcfg) (startTime repTs cycle : Z) : res Z :=
   let cycleInTimescale := i64 (cycle * repTs) in
   let nrWraps := Z.quot startTime cycleInTimescale in
-  let wrapStartS := nrWraps * cycle in
-  let firstNr0 := if nrWraps >? 0 then findLastSegNr r loopMS c (wrapStartS * 1000) + 1 else 0 in
+  let wrapStartS := i64 (nrWraps * cycle) in
+  let firstNr0 := if nrWraps >? 0 then findLastSegNr r loopMS c (i64 (wrapStartS * 1000)) + 1 else 0 in
   do segTime <- findSegStartTime r loopMS c firstNr0;
-  Ok (if segTime <? wrapStartS * repTs then firstNr0 + 1 else firstNr0).
+  Ok (if segTime <? i64 (wrapStartS * repTs) then firstNr0 + 1 else firstNr0).
 
 Lemma codeFirstNr_spec c ss n :
-  startS c = 0 -> startNr c = 0 -> repDuration r < two64 -> goodCode r ss -> 0 <= n ->
+  startS c = 0 -> startNr c = 0 -> repDuration r < two64 -> goodCode r ss -> 0 <= n -> S r n * 1000 < two63 ->
   codeFirstNr c (S r n) (ts r) (sc_cycle ss) = Ok (firstInCycle r (sc_cycle ss) n).
 Proof.
-  intros Hst Hsn HD (Hc & Hov & HE0) Hn. pose proof (wf_ts _ _ W) as Hts.
+  intros Hst Hsn HD (Hc & Hov & HE0) Hn HSb. pose proof (wf_ts _ _ W) as Hts.
   pose proof (S_nonneg r loopMS n W Hn) as HS0.
   set (cycle := sc_cycle ss) in *. set (cyT := cycle * ts r) in *.
   assert (HcyT : 0 < cyT) by (unfold cyT; nia).
@@ -393,6 +393,11 @@ Proof.
   set (q := S r n / cyT).
   assert (Hq : 0 <= q) by (apply Z.div_pos; lia).
   assert (HX : cycleStart r cycle n = q * cyT) by reflexivity.
+  assert (HqX : q * cyT <= S r n) by (unfold q; pose proof (Z.mul_div_le (S r n) cyT HcyT); lia).
+  assert (Hqc : 0 <= q * cycle <= S r n) by (unfold cyT in HqX; nia).
+  rewrite (i64_id (q * cycle)) by (unfold two63 in *; lia).
+  rewrite (i64_id (q * cycle * 1000)) by (unfold two63 in *; lia).
+  rewrite (i64_id (q * cycle * ts r)) by (unfold two63 in *; nia).
   destruct (firstInCycle_spec cycle n Hc Hn) as [Hfirst Hle]. rewrite HX in Hfirst.
   assert (Hfs : forall m, 0 <= m -> findSegStartTime r loopMS c m = Ok (S r m)).
   { intros m Hm. pose proof (findSegStartTime_spec r loopMS W c m Hm) as H. now rewrite Hsn in H. }
@@ -440,15 +445,16 @@ Qed.
     representation filter matches and whose relative number is n - firstInCycle. *)
 Lemma statusLoop_spec c repID n codes :
   startS c = 0 -> startNr c = 0 -> repDuration r < two64 -> Forall (goodCode r) codes -> 0 <= n ->
+  S r n * 1000 < two63 ->
   statusLoop r loopMS c repID (S r n) (ts r) n codes = Ok (scheduleCode r codes repID n).
 Proof.
-  intros Hst Hsn HD Hgood Hn. induction Hgood as [|ss rest Hss _ IH]; [reflexivity|].
+  intros Hst Hsn HD Hgood Hn HSb. induction Hgood as [|ss rest Hss _ IH]; [reflexivity|].
   rewrite statusLoop_cons. cbn [scheduleCode].
   destruct (repInReps repID (sc_reps ss)) eqn:Erep; cbn [negb andb]; [|exact IH].
   pose proof Hss as (Hc & Hov & HE0). pose proof (wf_ts _ _ W) as Hts.
   rewrite i64_id by (unfold two63 in *; nia).
   destruct (sc_cycle ss * ts r =? 0) eqn:E0; [nia|].
-  rewrite (codeFirstNr_spec c ss n Hst Hsn HD Hss Hn). cbn [bind].
+  rewrite (codeFirstNr_spec c ss n Hst Hsn HD Hss Hn HSb). cbn [bind].
   destruct (firstInCycle_spec (sc_cycle ss) n Hc Hn) as [_ Hle].
   destruct (n - firstInCycle r (sc_cycle ss) n <? 0) eqn:Eneg; [lia|].
   destruct (n - firstInCycle r (sc_cycle ss) n =? sc_rsq ss); [reflexivity|exact IH].
@@ -463,19 +469,19 @@ Definition timedAnswer (t : tv) (a : Z) : answer :=
 
 Lemma calcStatusCode_spec c codes repID n nr :
   startS c = 0 -> startNr c = 0 -> repDuration r < two64 -> Forall (goodCode r) codes -> 0 <= n ->
-  S r n < two63 -> ts r < two32 -> nr = n ->
+  S r n * 1000 < two63 -> ts r < two32 -> nr = n ->
   calcStatusCode r loopMS c codes repID (metaOf r c n nr) = Ok (scheduleCode r codes repID n).
 Proof.
   intros Hst Hsn HD Hgood Hn HS Hts ->. unfold calcStatusCode, metaOf. cbn [newTime mtimescale newNr].
   pose proof (S_nonneg r loopMS n W Hn). pose proof (wf_ts _ _ W).
   rewrite u64_id by (unfold two63, two64 in *; lia). rewrite i64_id by (unfold two63 in *; lia).
-  rewrite u32_id by lia. now apply statusLoop_spec.
+  rewrite u32_id by lia. apply statusLoop_spec; assumption.
 Qed.
 
 (** A request by number (video, or audio: the reference segment with the same number). *)
 Lemma segAnswer_number c codes repID audio n now base :
   startS c = 0 -> startNr c = 0 -> repDuration r < two64 -> Forall (goodCode r) codes -> codes <> [] ->
-  0 <= n < two32 -> S r n < two63 -> ts r < two32 -> 0 <= now ->
+  0 <= n < two32 -> S r n * 1000 < two63 -> ts r < two32 -> 0 <= now ->
   segAnswer r loopMS c codes repID audio ByNumber n now base =
   timedAnswer (checkTime (E r n) (ts r) now (tsbdS c) (ato c)) (scheduled codes repID n base).
 Proof.
@@ -495,7 +501,7 @@ Qed.
 (** A video request by time ($Time$ addressing): the segment that starts at S n. *)
 Lemma segAnswer_time c codes repID n now base :
   startS c = 0 -> startNr c = 0 -> repDuration r < two64 -> Forall (goodCode r) codes -> codes <> [] ->
-  0 <= n < two32 -> S r n < two63 -> ts r < two32 -> 0 <= now ->
+  0 <= n < two32 -> S r n * 1000 < two63 -> ts r < two32 -> 0 <= now ->
   segAnswer r loopMS c codes repID None ByTime (S r n) now base =
   timedAnswer (checkTime (E r n) (ts r) now (tsbdS c) (ato c)) (scheduled codes repID n base).
 Proof.
@@ -507,7 +513,7 @@ Proof.
   destruct (checkTime (E r n) (ts r) now (tsbdS c) (ato c)); cbn [timed timedAnswer]; [|reflexivity|reflexivity].
   unfold calcStatusCode. cbn [newTime mtimescale newNr].
   rewrite i64_id by (unfold two63 in *; lia). rewrite !u32_id by lia.
-  rewrite (statusLoop_spec c repID n codes Hst Hsn HD Hgood ltac:(lia)). unfold scheduled.
+  rewrite (statusLoop_spec c repID n codes Hst Hsn HD Hgood ltac:(lia) HS). unfold scheduled.
   destruct (scheduleCode r codes repID n =? 0); reflexivity.
 Qed.
 
@@ -666,7 +672,7 @@ Qed.
 (** An audio request by $Time$ whose time lies in reference segment n is answered by the schedule of n. *)
 Lemma segAnswer_audio_time c codes repID ats sd t n now base :
   startS c = 0 -> startNr c = 0 -> repDuration r < two64 -> Forall (goodCode r) codes -> codes <> [] ->
-  0 <= n < two32 -> S r n < two63 -> ts r < two32 -> 0 <= now ->
+  0 <= n < two32 -> S r n * 1000 < two63 -> ts r < two32 -> 0 <= now ->
   0 < ats -> 0 < sd -> t mod sd = 0 -> 0 <= t -> t * ts r < two64 ->
   S r n <= t * ts r / ats < E r n ->
   segAnswer r loopMS c codes repID (Some (ats, sd)) ByTime t now base =
@@ -683,7 +689,7 @@ Proof.
   unfold calcStatusCode. cbn [newTime mtimescale newNr].
   rewrite i64_id by (unfold two63 in *; lia). change (u32 0) with 0. rewrite Z.add_0_r.
   rewrite !u32_id by (try lia; rewrite u32_id; lia).
-  rewrite (statusLoop_spec r loopMS W c repID n codes Hst Hsn HD Hgood ltac:(lia)). unfold scheduled.
+  rewrite (statusLoop_spec r loopMS W c repID n codes Hst Hsn HD Hgood ltac:(lia) HS). unfold scheduled.
   destruct (scheduleCode r codes repID n =? 0); reflexivity.
 Qed.
 
